@@ -618,10 +618,12 @@ def main():
             os.makedirs(exp, exist_ok=True)
             src = open(os.path.join(repo, "src", "qhttpengine_export.h.in")).read()
             top = open(os.path.join(repo, "CMakeLists.txt")).read()
+            nums = []
             for key in ("MAJOR", "MINOR", "PATCH"):
                 m = re.search(r"PROJECT_VERSION_%s\s+(\d+)" % key, top)
-                src = src.replace("@PROJECT_VERSION_%s@" % key, m.group(1) if m else "0")
-            src = src.replace("@PROJECT_VERSION@", "0.0.0")
+                nums.append(m.group(1) if m else "0")
+                src = src.replace("@PROJECT_VERSION_%s@" % key, nums[-1])
+            src = src.replace("@PROJECT_VERSION@", ".".join(nums))
             src = re.sub(r"#cmakedefine\s+BUILD_SHARED_LIBS", "/* static */", src)
             open(os.path.join(exp, "qhttpengine_export.h"), "w").write(src)
     os.makedirs(a.out, exist_ok=True)
